@@ -112,4 +112,69 @@ chain("C17",
       "Exploration over histories with few scripts reused heavily (14 scripts incl. P2TR/P2WPKH/P2PKH/P2SH/bare/empty), same-block spends, OP_RETURN outputs; the whole address index is compared at each audit.",
       "chains as C01 without duplicate coinbases, --index-addresses with random other flags; audit compares the multimap (hook H2) with {(script, outpoint)} of the reference, every entry's script and value with the creating transaction, and get_address_info for every address-able script. distinct as C01.",
       {"audits": 2000, "blocks": 5000, "address_pairs_compared": 100000, "address_lookups_ok": 10000})
+
+
+INSC_RULE = "chains of 40-110 blocks (120-400 thorough; C05 also crosses the regtest jubilee at 110 and runs on testnet4) mixing transfers with reveal transactions: 1-3 inputs (also zero-value) x 0-3 envelopes each; envelope kinds clean (ord's own builder), pointer (in/out of range, onto inscribed sats, trailing zeros, >8 bytes), duplicate / incomplete / unrecognised even / odd fields, pushnum, stutter, junk; parents of every kind; fees from 0 to everything; OP_RETURN destinations; inscription index with random other flags and commit intervals {1,2,3,7,5000}. distinct = per-transaction shape tuples (inputs, outputs, OP_RETURN, zero-value, same-block spends, witnesses, envelopes, runestone)."
+
+chain("C03",
+      "differential monitor: inscription locations of the real index vs a reference that binds inscriptions to sat numbers and follows the BIP sat flow (independent of ord's offset/flotsam arithmetic); audited after (almost) every block",
+      "Exploration over histories: every inscription of every generated chain is re-located at every audit (~10^5 location comparisons per run), including inscriptions in OP_RETURN outputs (burned charm), lost to fees (null outpoint with the lost-sats offset), revealed straight into fees, unbound ones; with and without the sat index (with it: entry sat and find() must agree).",
+      INSC_RULE,
+      {"audits": 2000, "bound_checked_output": 20000, "bound_checked_lost": 2000, "bound_checked_op-return": 2000, "unbound_checked": 2000, "find_agrees": 1000})
+
+chain("C04",
+      "invariant monitor over the real tables: every sequence number held by exactly one output or pseudo-output, satpoint table agrees with holders, offsets below values, counts = statistics = envelopes found by ord's parser",
+      "Exploration over reachable index states: global audit of OUTPOINT_TO_UTXO_ENTRY inscription lists vs SEQUENCE_NUMBER_TO_SATPOINT and the entry table at every audit, across commit batches (special outpoints are merged at commit: intervals 1,2,3,7,5000).",
+      INSC_RULE,
+      {"audits": 2000, "inscriptions_audited": 50000, "holder_output": 5000, "holder_lost": 200, "holder_unbound": 200})
+
+chain("C05",
+      "invariant monitor: density/uniqueness of sequence numbers, inscription numbers and ids, mutual inverse of the lookup tables, per-block listing, jubilee rule, fee-spent reveals numbered last (arithmetic on the generated transaction)",
+      "Exploration over histories on regtest (crossing the jubilee height 110 in half of the chains) and testnet4 (jubilant from genesis), mixing blessed, cursed, vindicated and fee-spent reveals.",
+      INSC_RULE,
+      {"audits": 1500, "inscriptions_audited": 50000, "audits_with_cursed": 300, "created_after_jubilee": 2000, "blocks_with_fee_spent_and_plain_reveals": 500})
+
+chain("C06",
+      "implication monitor: (a) reference says the sat already carried an inscription => reinscription charm; (b) generator ground truth 'clean first envelope of first input on a fresh sat' => not cursed, not vindicated, not a reinscription, non-negative number",
+      "Exploration over envelope shapes and histories; only the two implications of the statement are asserted (an envelope that shares an offset but not a sat with an unbound one may legitimately carry the charm).",
+      INSC_RULE,
+      {"audits": 2000, "reinscriptions_checked": 5000, "clean_first_checked": 5000})
+
+chain("C07",
+      "soundness monitor for provenance: every recorded parent is older and was held by the reveal's inputs or revealed by it (reference eligibility set), no repeats, children view = exact inverse, paginated views over all pages, latest-child index and collections order",
+      "Exploration with forged parent ids of every kind (absent, unrelated, in other inputs, duplicated, malformed encodings, created later / in the same transaction).",
+      INSC_RULE,
+      {"audits": 2000, "children_checked": 3000, "visible_collections_checked": 500})
+
+RUNE_RULE = "chains of 40-110 blocks (120-400 thorough) on regtest from genesis with rune transactions: etchings (13+-letter / at, below, above the block minimum / reserved / duplicate names; commitment matured, too young, not taproot, missing, in another input, wrong bytes; unnamed; inside cenotaphs), terms from all presence subsets with window edges at height±1, overflowing offsets, caps 0-5; mints of existing / future / same-block / unknown ids; 0-6 edicts (id 0:0, amount 0 / balance / balance+1 / max, output = n, OP_RETURN outputs), pointers, plain transfers of runic outputs, everything-burns transactions, and integer-level mutations reaching every flaw. Rune index with random other flags. distinct as for inscriptions."
+
+chain("C08",
+      "conservation monitor (model-free): for every rune at every audit, sum of balances + burned = premine + mints x amount; no zero / unknown / duplicate balances; balances only on unspent non-OP_RETURN outputs",
+      "Exploration over histories; the conservation equation is evaluated for every rune entry at every audit (~10^4 per run).",
+      RUNE_RULE,
+      {"audits": 2000, "conserved": 10000, "runes_with_burns": 500, "runes_with_mints": 300, "runes_etched": 300})
+
+chain("C09",
+      "differential monitor: per-outpoint balances and burned totals vs the reference runes state machine (own decipherer), plus per-transaction comparison of the emitted rune events with the reference allocation",
+      "Exploration over transaction shapes x runestones x input balances; full balance map compared at every audit and every transaction's events compared, so compensating errors inside a block cannot hide.",
+      RUNE_RULE,
+      {"audits": 2000, "balance_maps_equal": 1500, "balance_outputs_compared": 2000, "transactions_with_rune_events_compared": 1000})
+
+chain("C10",
+      "differential monitor of the mint rule: mint counts per rune vs the reference (terms, window = [max(starts), min(ends)), cap, cenotaph mints count, no mint before the etching transaction), mints <= cap, mintable() for the next block",
+      "Exploration over terms (all presence subsets, edge heights, saturating offsets) and mint timings around window edges and the cap.",
+      RUNE_RULE,
+      {"audits": 2000, "runes_with_mints_compared": 300, "runes_at_cap": 100, "open_mints_seen": 200})
+
+chain("C11",
+      "differential monitor of the rune set: (id, name, number) and all entry fields vs the reference etching rule; density of numbers; bijectivity of name/id/number/etching lookups; Runes / ReservedRunes statistics",
+      "Exploration over etchings: every rejection reason is observed in every run (counters etchings_rejected_*), cenotaph and reserved-name etchings included.",
+      RUNE_RULE,
+      {"audits": 2000, "rune_entries_compared": 5000, "etchings_rejected_below-minimum": 100, "etchings_rejected_reserved": 100, "etchings_rejected_taken": 20, "etchings_rejected_no-valid-commitment": 200, "cenotaph_etchings_seen": 100, "reserved_names_seen": 500})
+
+chain("C37",
+      "replay checker: the event stream received over the real channel (capacities 1, 4, 128: back-pressure) is folded in order and compared with the index: inscription locations, charms at creation (+burned on later OP_RETURN transfers), parents, rune set, mint counts, burned totals, per-outpoint balances",
+      "Exploration over histories without reorganisations; the whole stream is replayed from the start at several points of each chain.",
+      INSC_RULE + " Plus the rune classes of C09 in three quarters of the chains.",
+      {"audits": 300, "events_replayed": 50000, "inscriptions_replayed": 20000, "rune_events_replayed": 1000})
 NOT_APPLICABLE = {}
